@@ -113,7 +113,7 @@ func TestVerifC11Uploader(t *testing.T) {
 				continue
 			}
 			seen[b] = true
-			f := &ufile{Build: b, Kind: "ok", End: end, Begin: end.Add(-5 * 24 * time.Hour), Counts: localNames(rnd, fmt.Sprintf("CAN%d", i))}
+			f := &ufile{Build: b, Kind: "ok", End: end, Begin: end.Add(-5 * 24 * time.Hour), Counts: validUTF8Only(localNames(rnd, fmt.Sprintf("CAN%d", i)))} // (the legs are chained through JSON files, which cannot carry other names)
 			f.setName(k)
 			td.put(f, rnd)
 			exp := map[string]uint64{}
